@@ -1,10 +1,11 @@
 SPECIFICATION Spec
 CONSTANTS
-  SccFix = "retain"
-  TfcChain = TRUE
+  SccFix = "forget"
+  TfcChain = FALSE
   MaxEpochs = 2
   MaxSets = 1
   MaxQueries = 2
-  Emitting = "bad"
+  Emitting = "no"
+INVARIANT Correct
 VIEW View
 CHECK_DEADLOCK FALSE
